@@ -245,6 +245,77 @@ def _walk(stmts):
     return walk_own(stmts)
 
 
+def _names(e):
+    return {n.id for n in ast.walk(e) if isinstance(n, ast.Name)}
+
+
+def _rebuild_prefix(ctx, f):
+    """The sorted points are turned back into a tree level by level.  A new
+    sub-fiber must be opened at level i as soon as ANY level <= i differs
+    from the previous point: the decision has to look at the whole prefix,
+    either through a flag carried down the levels (reset per point) or a
+    slice comparison."""
+    site = None
+    for w in [n for n in f.own_nodes() if isinstance(n, ast.While)]:
+        for lp in w.body:
+            if not isinstance(lp, ast.For):
+                continue
+            for iff in _walk(lp.body):
+                if isinstance(iff, ast.If) and any(
+                        isinstance(c, ast.Call) and text(c.func) == "Fiber"
+                        and not c.args for c in _walk(iff.body)):
+                    site = (w, lp, iff)
+    if site is None:
+        ctx.bad("C09.R4", f, f.node, "swizzleRanks: the level-by-level rebuild "
+                "loop (new Fiber() under a condition inside a for over the "
+                "point's coordinates) was not found", text_="swizzle prefix reuse")
+        return
+    w, lp, iff = site
+    deps, todo = set(), [iff.test]
+    slices = False
+    carried = set()
+    body_stores = {}
+    for n in _walk(lp.body):
+        if isinstance(n, (ast.Assign, ast.AugAssign)):
+            tg = n.targets[0] if isinstance(n, ast.Assign) else n.target
+            if isinstance(tg, ast.Name):
+                body_stores.setdefault(tg.id, []).append(n)
+    seen = set()
+    while todo:
+        e = todo.pop()
+        if any(isinstance(x, ast.Slice) for x in ast.walk(e)):
+            slices = True
+        for nm in _names(e):
+            if nm in seen:
+                continue
+            seen.add(nm)
+            for st in body_stores.get(nm, []):
+                if isinstance(st, ast.AugAssign) or nm in _names(st.value):
+                    carried.add(nm)
+                todo.append(st.value)
+    # a carried flag must be re-initialised for every point (inside the while,
+    # before the for) and not inside the for
+    ok_flag = False
+    for v in carried:
+        pre = [st for st in w.body[:w.body.index(lp)] if isinstance(st, ast.Assign)
+               and isinstance(st.targets[0], ast.Name) and st.targets[0].id == v]
+        if pre:
+            ok_flag = True
+    if ok_flag or slices:
+        ctx.ok("C09.R4", f, iff, "a new sub-fiber is opened depending on the "
+               "whole coordinate prefix (%s)" % (
+                   "flag %s carried down the levels, reset per point" % sorted(carried)
+                   if ok_flag else "slice comparison"),
+               text_="swizzle prefix reuse")
+    else:
+        ctx.bad("C09.R4", f, iff, "swizzleRanks opens a new sub-fiber at level "
+                "i from `%s`, which looks at level i only: when a higher "
+                "coordinate changes but this one repeats, the point is "
+                "appended to the previous sub-tree (points move to the wrong "
+                "coordinates; swizzle and its inverse no longer cancel)"
+                % text(iff.test), text_="swizzle prefix reuse")
+
+
 def r4(ctx):
     f = ctx.method("Tensor", "swizzleRanks")
     whiles = [n for n in f.own_nodes() if isinstance(n, ast.While)]
@@ -305,6 +376,7 @@ def r4(ctx):
           text(n.value).replace(" ", "") in ("copy.deepcopy(self)", "deepcopy(self)")]
     if cp:
         ctx.ok("C09.R4", f, cp[0], "works on a deep copy")
+    _rebuild_prefix(ctx, f)
     # Fiber.swapRanks
     f = ctx.method("Fiber", "swapRanks")
     src = " ".join(text(s) for s in f.body).replace(" ", "")
